@@ -13,6 +13,7 @@ import (
 	"fmt"
 	"io"
 	"math/rand"
+	"net"
 	"net/http"
 	"net/http/httptest"
 	"os"
@@ -21,6 +22,7 @@ import (
 	"strings"
 	"sync"
 	"sync/atomic"
+	"syscall"
 	"time"
 
 	mcp "trpc.group/trpc-go/trpc-mcp-go"
@@ -54,9 +56,12 @@ var scenarios = map[string]func(*child){
 	"srv-stdio":       scSrvStdio,
 	"cli-stdio":       scCliStdio,
 	"cli-stdio-first": scCliStdioFirst,
+	"cli-retry":       scCliRetry,
+	"sse-retry":       scSSERetry,
+	"srv-registry":    scSrvRegistry,
 }
 
-var scenarioOrder = []string{"srv-streamable", "srv-resume", "cli-streamable", "cli-first", "sse", "sse-first", "sse-reendpoint", "srv-stdio", "cli-stdio", "cli-stdio-first"}
+var scenarioOrder = []string{"srv-streamable", "srv-resume", "cli-streamable", "cli-first", "sse", "sse-first", "sse-reendpoint", "srv-stdio", "cli-stdio", "cli-stdio-first", "cli-retry", "sse-retry", "srv-registry"}
 
 func childMain(name string) {
 	if name == "stdio-server" {
@@ -211,7 +216,10 @@ type streamSrv struct {
 	url string
 }
 
-func newStreamSrv(stateless bool) *streamSrv {
+func newStreamSrv(stateless bool) *streamSrv { return newStreamSrvWrapped(stateless, nil) }
+
+// newStreamSrvWrapped: wrap (optional) sits between the network and the library's handler.
+func newStreamSrvWrapped(stateless bool, wrap func(http.Handler) http.Handler) *streamSrv {
 	opts := []mcp.ServerOption{mcp.WithServerLogger(hk.QuietLogger{}), mcp.WithServerPath("/mcp"), mcp.WithGetSSEEnabled(true), mcp.WithPostSSEEnabled(true)}
 	if stateless {
 		opts = append(opts, mcp.WithStatelessMode(true))
@@ -225,7 +233,11 @@ func newStreamSrv(stateless bool) *streamSrv {
 		s.ListRoots(c2)
 		return nil
 	})
-	ts := httptest.NewUnstartedServer(s.Handler())
+	var h http.Handler = s.Handler()
+	if wrap != nil {
+		h = wrap(h)
+	}
+	ts := httptest.NewUnstartedServer(h)
 	ts.Config.ErrorLog = hk.QuietStdLog()
 	ts.Start()
 	return &streamSrv{s: s, ts: ts, url: ts.URL + "/mcp"}
@@ -408,6 +420,99 @@ func scSrvStreamable(ch *child) {
 	cw.Wait()
 	stop.Store(true)
 	wg.Wait()
+}
+
+// scSrvRegistry: the registries of a server listed and looked up while tools come and go — entirely in memory (no
+// network I/O, whose acquire / release on one global object of the race runtime orders goroutines by accident; the
+// goroutines count their work locally for the same reason).  The churner always removes the OLDEST tool of a sliding
+// window, never the newest: whatever the registry keeps in registration order has its later entries moved, which a
+// listing that walks such a structure outside the registry's lock would be reading.  tools/list requests go through the
+// server's own HTTP handler with an in-memory ResponseWriter (stateless server: no session needed).
+func scSrvRegistry(ch *child) {
+	type reg struct {
+		registrar
+		getTool func(name string) (mcp.Tool, bool)
+		serve   http.Handler
+	}
+	srv := mcp.NewServer("races-registry", "1.0", mcp.WithServerLogger(hk.QuietLogger{}), mcp.WithServerPath("/mcp"), mcp.WithStatelessMode(true))
+	sse := mcp.NewSSEServer("races-registry-sse", "1.0", mcp.WithSSEServerLogger(hk.QuietLogger{}))
+	for ri, r := range []reg{{regServer(srv), srv.GetTool, srv.Handler()}, {regSSE(sse), sse.GetTool, nil}} {
+		registerBase(r.registrar)
+		const window = 8
+		for i := 0; i < window; i++ {
+			r.tool(mcp.NewTool(fmt.Sprintf("w%d", i), mcp.WithString("tag")), toolWork)
+		}
+		steps := 1500 * ch.scale
+		var stop atomic.Bool
+		var ops, ok [4]int64
+		var wg sync.WaitGroup
+		wg.Add(1)
+		go func() { // the churner
+			defer wg.Done()
+			for i := window; i < window+steps; i++ {
+				r.tool(mcp.NewTool(fmt.Sprintf("w%d", i), mcp.WithString("tag")), toolWork)
+				var err error
+				if i%7 == 0 {
+					// two at once, oldest first; the second one is re-registered (it becomes the newest)
+					err = r.unregTools(fmt.Sprintf("w%d", i-window), fmt.Sprintf("w%d", i-window+1))
+					r.tool(mcp.NewTool(fmt.Sprintf("w%d", i-window+1), mcp.WithString("tag")), toolWork)
+				} else {
+					err = r.unregTools(fmt.Sprintf("w%d", i-window))
+				}
+				ops[0]++
+				if err == nil {
+					ok[0]++
+				}
+				if i%5 == 0 { // an entry replaced under its name
+					r.tool(mcp.NewTool(fmt.Sprintf("w%d", i-1), mcp.WithString("tag"), mcp.WithDescription("again")), toolWork)
+				}
+			}
+			stop.Store(true)
+		}()
+		for l := 1; l <= 2; l++ {
+			l := l
+			wg.Add(1)
+			go func() { // listers through the public getters
+				defer wg.Done()
+				for i := 0; !stop.Load(); i++ {
+					n := len(r.tools())
+					ops[l]++
+					if n >= window-2 {
+						ok[l]++
+					}
+					if i%3 == 0 {
+						r.getTool("w0")
+						r.getTool("work")
+					}
+				}
+			}()
+		}
+		if r.serve != nil {
+			wg.Add(1)
+			go func() { // tools/list, tools/call, prompts/list, resources/list through the handler
+				defer wg.Done()
+				bodies := []string{`{"jsonrpc":"2.0","id":1,"method":"tools/list"}`, `{"jsonrpc":"2.0","id":2,"method":"tools/call","params":{"name":"work","arguments":{"tag":"m"}}}`,
+					`{"jsonrpc":"2.0","id":3,"method":"tools/list"}`, `{"jsonrpc":"2.0","id":4,"method":"prompts/list"}`, `{"jsonrpc":"2.0","id":5,"method":"tools/list"}`, `{"jsonrpc":"2.0","id":6,"method":"resources/list"}`}
+				for i := 0; !stop.Load(); i++ {
+					req := httptest.NewRequest(http.MethodPost, "http://in.memory/mcp", strings.NewReader(bodies[i%len(bodies)]))
+					req.Header.Set("Content-Type", "application/json")
+					req.Header.Set("Accept", "application/json, text/event-stream")
+					rec := httptest.NewRecorder()
+					r.serve.ServeHTTP(rec, req)
+					ops[3]++
+					if rec.Code == http.StatusOK && strings.Contains(rec.Body.String(), `"result"`) {
+						ok[3]++
+					}
+				}
+			}()
+		}
+		wg.Wait()
+		_ = ri
+		for k := range ops {
+			ch.ops.Add(ops[k])
+			ch.okOps.Add(ok[k])
+		}
+	}
 }
 
 // rawPost / rawGet: a reference peer (plain net/http), used where the timing of the library's own client would get
@@ -661,7 +766,9 @@ func (g *idGen) all() []string {
 	return append([]string{}, g.ids...)
 }
 
-func newSSESrv() (*mcp.SSEServer, *httptest.Server, *idGen) {
+func newSSESrv() (*mcp.SSEServer, *httptest.Server, *idGen) { return newSSESrvWrapped(nil) }
+
+func newSSESrvWrapped(wrap func(http.Handler) http.Handler) (*mcp.SSEServer, *httptest.Server, *idGen) {
 	gen := &idGen{}
 	var s *mcp.SSEServer
 	s = mcp.NewSSEServer("races-sse", "1.0", mcp.WithSSEServerLogger(hk.QuietLogger{}), mcp.WithSSESessionIDGenerator(gen),
@@ -673,7 +780,11 @@ func newSSESrv() (*mcp.SSEServer, *httptest.Server, *idGen) {
 		s.ListRoots(c2)
 		return nil
 	})
-	ts := httptest.NewUnstartedServer(s)
+	var h http.Handler = s
+	if wrap != nil {
+		h = wrap(h)
+	}
+	ts := httptest.NewUnstartedServer(h)
 	ts.Config.ErrorLog = hk.QuietStdLog()
 	ts.Start()
 	return s, ts, gen
@@ -822,6 +933,240 @@ func scSSEReendpoint(ch *child) {
 	wg.Wait()
 	c.Close()
 }
+
+// ---------------------------------------------------------------------------------------------------------------
+// retry (WithRetry / WithSimpleRetry): calls that fail transiently and back off at the same time
+//
+// retry.Execute runs on the goroutine of every call of a client that has a retry policy, so whatever its back-off step
+// touches outside the call's own state is shared by all calls of all clients of the process.  (The stdio client has
+// no retry: the policy options are ClientOptions, NewStdioClient takes none of them, and its transport never looks at
+// the retry configuration it can store.)
+
+type fkey struct{}
+
+// fstate is goroutine-local (carried by the calling goroutine's context, plain fields): how many more attempts of the
+// call in progress are to fail, how, and the round whose callers meet at their first failure.
+type fstate struct {
+	left  int
+	mode  string
+	round *fround
+	first bool
+}
+
+// fround lets the callers of one round reach their first failure together: everything a caller does after that
+// point is unordered with the other callers — the barrier only adds edges INTO it.
+type fround struct {
+	n       int32
+	arrived atomic.Int32
+	open    chan struct{}
+}
+
+func newRound(n int) *fround { return &fround{n: int32(n), open: make(chan struct{})} }
+
+// flaky is a custom HTTPReqHandler (public extension point).  The attempts the caller's fstate marks fail with a
+// transient error made up in memory — a 503 answer, a reset / refused connection, an EOF — WITHOUT any network I/O
+// (every network read / write is an acquire / release on one global object of the race runtime: real failures would
+// order the callers by accident); the other requests go to the real server on a connection of their own.
+type flaky struct{}
+
+func (flaky) Handle(ctx context.Context, client *http.Client, req *http.Request) (*http.Response, error) {
+	st, _ := ctx.Value(fkey{}).(*fstate)
+	if st == nil || req.Method != http.MethodPost || st.left <= 0 {
+		return (&http.Client{Transport: &http.Transport{DisableKeepAlives: true}}).Do(req)
+	}
+	st.left--
+	if st.first && st.round != nil {
+		st.first = false
+		if st.round.arrived.Add(1) == st.round.n {
+			close(st.round.open)
+		}
+		select {
+		case <-st.round.open:
+		case <-time.After(2 * time.Second):
+		}
+	}
+	switch st.mode {
+	case "reset":
+		return nil, &net.OpError{Op: "read", Net: "tcp", Err: os.NewSyscallError("read", syscall.ECONNRESET)}
+	case "refused":
+		return nil, &net.OpError{Op: "dial", Net: "tcp", Err: os.NewSyscallError("connect", syscall.ECONNREFUSED)}
+	case "eof":
+		return nil, io.EOF
+	}
+	return &http.Response{Status: "503 Service Unavailable", StatusCode: http.StatusServiceUnavailable, Proto: "HTTP/1.1", ProtoMajor: 1, ProtoMinor: 1,
+		Header: http.Header{"Content-Type": {"text/plain; charset=utf-8"}}, Body: io.NopCloser(strings.NewReader("try again\n")), Request: req}, nil
+}
+
+var failModes = []string{"503", "reset", "refused", "eof"}
+
+// flakySrv answers the FIRST attempt of every tools/call request with 503 (real network, the library's default
+// handler): the realistic variant — which goroutines it leaves unordered is up to the schedule.
+type flakySrv struct {
+	h    http.Handler
+	mu   sync.Mutex
+	seen map[string]int
+}
+
+func (f *flakySrv) ServeHTTP(w http.ResponseWriter, r *http.Request) {
+	if r.Method == http.MethodPost {
+		b, _ := io.ReadAll(r.Body)
+		r.Body = io.NopCloser(bytes.NewReader(b))
+		var m struct {
+			ID     json.RawMessage `json:"id"`
+			Method string          `json:"method"`
+		}
+		if json.Unmarshal(b, &m) == nil && m.Method == "tools/call" && len(m.ID) > 0 {
+			key := r.Header.Get("Mcp-Session-Id") + "|" + r.URL.RawQuery + "|" + string(m.ID)
+			f.mu.Lock()
+			f.seen[key]++
+			n := f.seen[key]
+			f.mu.Unlock()
+			if n == 1 {
+				http.Error(w, "try again", http.StatusServiceUnavailable)
+				return
+			}
+		}
+	}
+	f.h.ServeHTTP(w, r)
+}
+
+var quickRetry = mcp.RetryConfig{MaxRetries: 3, InitialBackoff: 4 * time.Millisecond, BackoffFactor: 2, MaxBackoff: 24 * time.Millisecond}
+
+// retryScenario: (1) ONE client with a retry policy used from several goroutines whose calls fail transiently at the
+// same time, (2) several clients — each with its own policy — doing the same, two goroutines each, (3) clients
+// configured with WithSimpleRetry (default back-offs), (4) first attempts refused by the server itself.
+func retryScenario(ch *child, kind string) {
+	var url string
+	var closeSrv func()
+	wrap := func(h http.Handler) http.Handler { return h }
+	var fs *flakySrv
+	wrapFlaky := func(h http.Handler) http.Handler { fs = &flakySrv{h: h, seen: map[string]int{}}; return fs }
+	start := func(w func(http.Handler) http.Handler) {
+		if kind == "sse" {
+			_, ts, _ := newSSESrvWrapped(w)
+			url, closeSrv = ts.URL+"/sse", func() { ts.CloseClientConnections(); ts.Close() }
+		} else {
+			f := newStreamSrvWrapped(false, w)
+			url, closeSrv = f.url, f.close
+		}
+	}
+	newClient := func(opts ...mcp.ClientOption) *mcp.Client {
+		opts = append([]mcp.ClientOption{mcp.WithClientLogger(hk.QuietLogger{})}, opts...)
+		var c *mcp.Client
+		var err error
+		if kind == "sse" {
+			c, err = mcp.NewSSEClient(url, impl, opts...)
+		} else {
+			c, err = mcp.NewClient(url, impl, opts...)
+		}
+		if err != nil {
+			panic(err)
+		}
+		ictx, cancel := context.WithTimeout(context.Background(), 10*time.Second)
+		defer cancel()
+		_, err = c.Initialize(ictx, &mcp.InitializeRequest{})
+		ch.did(err)
+		return c
+	}
+	// one round: every (client, goroutine) makes one call whose first attempts fail; all of them are held at their first
+	// failure until the last one has arrived, then back off together
+	round := func(cs []*mcp.Client, perClient int, rk int) {
+		r := newRound(len(cs) * perClient)
+		var wg sync.WaitGroup
+		for ci, c := range cs {
+			for g := 0; g < perClient; g++ {
+				ci, c, g := ci, c, g
+				wg.Add(1)
+				go func() {
+					defer wg.Done()
+					rng := ch.rng(1000*rk + 10*ci + g)
+					st := &fstate{left: 1 + rng.Intn(2), mode: failModes[rng.Intn(len(failModes))], round: r, first: true}
+					ctx, cancel := context.WithTimeout(context.WithValue(context.Background(), fkey{}, st), 20*time.Second)
+					defer cancel()
+					ch.did(callWork(ctx, c, fmt.Sprintf("retry-%d-%d-%d", rk, ci, g)))
+				}()
+			}
+		}
+		wg.Wait()
+	}
+	start(wrap)
+	// (1) one client, six goroutines
+	one := newClient(mcp.WithRetry(quickRetry), mcp.WithHTTPReqHandler(flaky{}))
+	for i := 0; i < 3*ch.scale; i++ {
+		round([]*mcp.Client{one}, 6, i)
+	}
+	// (2) four clients, two goroutines each
+	var many []*mcp.Client
+	for k := 0; k < 4; k++ {
+		cfg := quickRetry
+		cfg.InitialBackoff += time.Duration(k) * time.Millisecond
+		many = append(many, newClient(mcp.WithRetry(cfg), mcp.WithHTTPReqHandler(flaky{})))
+	}
+	for i := 0; i < 2*ch.scale; i++ {
+		round(many, 2, 100+i)
+	}
+	round(append([]*mcp.Client{one}, many...), 1, 200)
+	one.Close()
+	for _, c := range many {
+		c.Close()
+	}
+	// (3) WithSimpleRetry: the default policy (500 ms before the second attempt)
+	var simple []*mcp.Client
+	for k := 0; k < 3; k++ {
+		simple = append(simple, newClient(mcp.WithSimpleRetry(1+k), mcp.WithHTTPReqHandler(flaky{})))
+	}
+	{
+		r := newRound(len(simple))
+		var wg sync.WaitGroup
+		for ci, c := range simple {
+			ci, c := ci, c
+			wg.Add(1)
+			go func() {
+				defer wg.Done()
+				st := &fstate{left: 1, mode: failModes[(int(ch.seed)+ci)%len(failModes)], round: r, first: true}
+				ctx, cancel := context.WithTimeout(context.WithValue(context.Background(), fkey{}, st), 20*time.Second)
+				defer cancel()
+				ch.did(callWork(ctx, c, fmt.Sprintf("simple-%d", ci)))
+			}()
+		}
+		wg.Wait()
+	}
+	for _, c := range simple {
+		c.Close()
+	}
+	closeSrv()
+	// (4) the server itself refuses every first attempt
+	start(wrapFlaky)
+	var real []*mcp.Client
+	for k := 0; k < 2; k++ {
+		real = append(real, newClient(mcp.WithRetry(quickRetry)))
+	}
+	var wg sync.WaitGroup
+	for ci, c := range real {
+		for g := 0; g < 3; g++ {
+			ci, c, g := ci, c, g
+			wg.Add(1)
+			go func() {
+				defer wg.Done()
+				for i := 0; i < 3*ch.scale; i++ {
+					ctx, cancel := context.WithTimeout(context.Background(), 20*time.Second)
+					ch.did(callWork(ctx, c, fmt.Sprintf("srv503-%d-%d-%d", ci, g, i)))
+					cancel()
+				}
+			}()
+		}
+	}
+	wg.Wait()
+	for _, c := range real {
+		c.Close()
+	}
+	closeSrv()
+	_ = fs
+}
+
+// scCliRetry / scSSERetry: the retry scenario for the two client kinds that implement retry.
+func scCliRetry(ch *child) { retryScenario(ch, "streamable") }
+func scSSERetry(ch *child) { retryScenario(ch, "sse") }
 
 // ---------------------------------------------------------------------------------------------------------------
 // stdio
